@@ -215,7 +215,10 @@ func (env *c16Env) gen(t *rapid.T) *c16Req {
 	if r.mirror {
 		keys = env.worlds[1].keys
 	}
-	profile := c14Pick(t, "profile", []c14W{{"valid", 10}, {"one", 52}, {"free", 38}})
+	// "rootattack": the checkpoint's own root hash offered for a subtree other than the whole tree (a right-edge subtree,
+	// or a range of the tree's size that starts beyond it), mostly without proof
+	profile := c14Pick(t, "profile", []c14W{{"valid", 10}, {"one", 47}, {"free", 35}, {"rootattack", 8}})
+	attack := profile == "rootattack"
 	dims := []string{"origin", "range", "hash", "proof", "sigs", "hdr", "cp", "ext"}
 	dev := map[string]bool{}
 	switch profile {
@@ -263,7 +266,26 @@ func (env *c16Env) gen(t *rapid.T) *c16Req {
 	}
 	r.start, r.end = c16ValidRange(t, "vr.", r.n)
 	r.rngStr = ""
+	if attack {
+		r.rngKind = c14Pick(t, "attackrng", []c14W{{"rightedge", 5}, {"shifted", 5}, {"valid", 1}})
+	}
 	switch r.rngKind {
+	case "rightedge":
+		// [start, n) with start > 0: a valid subtree on the right edge of the tree
+		k := uint(rapid.IntRange(0, 12).Draw(t, "rek"))
+		if rem := r.n % (1 << k); rem != 0 && r.n-rem > 0 {
+			r.start, r.end = r.n-rem, r.n
+		} else if st := r.n & (r.n - 1); st > 0 {
+			r.start, r.end = st, r.n
+		}
+	case "shifted":
+		// as many entries as the tree has, starting at a multiple of the next power of two: a well-formed subtree beyond the size
+		p := int64(1)
+		for p < r.n {
+			p *= 2
+		}
+		r.start = p * int64(rapid.IntRange(1, 3).Draw(t, "shiftk"))
+		r.end = r.start + r.n
 	case "beyond":
 		if rapid.Bool().Draw(t, "beyond0") {
 			r.start, r.end = 0, r.n+int64(rapid.IntRange(1, 5).Draw(t, "beyondd"))
@@ -325,6 +347,9 @@ func (env *c16Env) gen(t *rapid.T) *c16Req {
 			r.hashK = "random"
 		}
 	}
+	if attack {
+		r.hashK = "root"
+	}
 	r.hash = right
 	if !haveRight {
 		r.hash = c14Hash("c16 no right hash")
@@ -366,6 +391,9 @@ func (env *c16Env) gen(t *rapid.T) *c16Req {
 	r.prfKind = "right"
 	if dev["proof"] {
 		r.prfKind = c14Pick(t, "proof", []c14W{{"flip", 18}, {"drop", 17}, {"surplus", 17}, {"otherrange", 17}, {"othersize", 11}, {"empty", 10}, {"badline", 5}, {"right", 5}})
+	}
+	if attack {
+		r.prfKind = c14Pick(t, "attackproof", []c14W{{"empty", 3}, {"right", 1}})
 	}
 	r.proof = append([]vfref.Hash(nil), rp...)
 	badLine := ""
